@@ -169,6 +169,16 @@ fn doc(c: &Value, m: &Mat, variant: bool) -> Value {
     json!({"publicKey": Value::Object(pk)})
 }
 
+pub fn doc_pub(c: &Value, rng: &mut impl RngCore) -> Value {
+    let mut r = |n: usize| -> Vec<u8> {
+        let mut v = vec![0u8; n];
+        rng.fill_bytes(&mut v);
+        v
+    };
+    let m = Mat { challenge: r(32), user: r(12), cred1: r(16), cred2: r(20), prf1: r(32), prf2: r(7) };
+    doc(c, &m, true)
+}
+
 fn parse_same(c: &Value, m: &Mat) -> (String, bool) {
     let v = doc(c, m, true);
     let canon = doc(c, m, false);
